@@ -233,6 +233,33 @@ def handleEncodeNative (j : Json) : Except String Json := do
                           tmin := ← g "tmin", tmax := ← g "tmax", code := ← g "code", source := ← g "source" }
   pure (Json.str (String.ofList (Codec.encodeNative l)))
 
+def strList (j : Json) : Except String (List (List Char)) := do
+  pure ((← (← j.getArr?).toList.mapM (·.getStr?)).map String.toList)
+
+def handleSpecies (j : Json) : Except String Json := do
+  let elements ← strList (← j.getObjVal? "elements")
+  let pseudo ← strList (← j.getObjVal? "pseudo")
+  let grain ← (← j.getObjVal? "grain").getStr?
+  let surface ← (← j.getObjVal? "surface").getStr?
+  let repl ← (← (← j.getObjVal? "repl").getArr?).toList.mapM fun p => do
+    pure (((← (← p.getArrVal? 0).getStr?).toList), ((← (← p.getArrVal? 1).getStr?).toList))
+  let names ← strList (← j.getObjVal? "names")
+  let cfg : Sp.Cfg := { elements := elements, pseudo := pseudo, grain := grain.toList, surface := surface.toList, repl := repl }
+  let S := fun (x : List Char) => Json.str (String.ofList x)
+  pure <| Json.arr (names.map fun nm =>
+    match Sp.parse cfg nm with
+    | .error e => Json.mkObj [("error", (match e with
+        | .startsUnknown => "starts" | .unknownPart => "part" | .repeatedSurface => "surface" | .repeatedGrain => "grain"))]
+    | .ok p =>
+      let nm' := Sp.renamed cfg nm
+      Json.mkObj [
+        ("counts", Json.arr (p.counts.map fun (e, n) => Json.arr #[S e, (n : Nat)]).toArray),
+        ("surface", match p.surface with | some g => Json.num (g : Nat) | none => Json.null),
+        ("grain", match p.grain with | some g => Json.num (g : Nat) | none => Json.null),
+        ("name", S nm'), ("charge", Json.num (Sp.charge nm' : Int)), ("basename", S (Sp.basename cfg p nm')),
+        ("gasname", S (Sp.gasname cfg p nm')), ("alias", S (Sp.aliasOf cfg p nm')), ("massnumber", (Sp.massNumber p : Nat)),
+        ("is_atom", Sp.isAtom p nm'), ("is_electron", Sp.isElectron nm')]).toArray
+
 def handle (line : String) : String :=
   match Json.parse line with
   | .error e => (Json.mkObj [("error", s!"json: {e}")]).compress
@@ -247,6 +274,7 @@ def handle (line : String) : String :=
       | "window" => handleWindow j
       | "gasrate" => handleGasRate j
       | "decode" => handleDecode j
+      | "species" => handleSpecies j
       | "encode_native" => handleEncodeNative j
       | "kromebound" => handleKrome j
       | "dup" => handleDup j
